@@ -141,6 +141,10 @@ DEGENERATE = {
                                                               n - 1)])
     if n > 1 else np.array([1e-9]),
     "two-level": lambda n: np.where(np.arange(n) < n // 2, 0.0, 1e-9),
+    # no baseline, concave (contact from the first sample on)
+    "no-baseline-sqrt": lambda n: np.sqrt(np.linspace(0, 1, n)) * 1e-9,
+    "no-baseline-tanh": lambda n: np.tanh(np.linspace(0, 3, n)) * 1e-9,
+    "no-baseline-linear": lambda n: np.linspace(0, 1, n) * 1e-9,
 }
 DEG_LENGTHS = [1, 2, 3, 4, 5, 6, 7, 8, 12, 60, 300]
 
